@@ -1,5 +1,5 @@
-import p_cards, p_eval, p_showdown, p_flop, p_scopes, p_sym, p_workers, p_notation
+import p_cards, p_eval, p_showdown, p_flop, p_scopes, p_sym, p_workers, p_notation, p_fmt
 
 CHECKS = {}
-for m in (p_cards, p_eval, p_showdown, p_flop, p_scopes, p_sym, p_workers, p_notation):
+for m in (p_cards, p_eval, p_showdown, p_flop, p_scopes, p_sym, p_workers, p_notation, p_fmt):
     CHECKS.update(m.CHECKS)
